@@ -79,7 +79,7 @@ def prepare(prop, tier, seed):
     atexit.register(lambda p=_scratch, pid=os.getpid(): os.getpid() == pid and shutil.rmtree(p, ignore_errors=True))
 
 
-N_RUNS = {"C07": {"quick": 1400, "thorough": 40000}, "C02": {"quick": 0, "thorough": 0}}
+N_RUNS = {"C07": {"quick": 3600, "thorough": 60000}, "C02": {"quick": 0, "thorough": 0}}
 
 
 def _c02_space(tier):
